@@ -391,6 +391,14 @@ class DV:
 UNDEF = None
 
 
+class _Null:
+    def __repr__(self):
+        return "null"
+
+
+NULL = _Null()
+
+
 # ----------------------------------------------------------------------------------------------------------------
 # the world: one primary buffer `b` plus named views; all operations are methods so that Fx side effects can reach `b`
 # ----------------------------------------------------------------------------------------------------------------
@@ -454,13 +462,13 @@ class World:
             raise JSErr("TypeError")
         if isinstance(v, str):
             return string_to_number(v)
-        if v == "null":
+        if v is NULL:
             return 0.0
         raise AssertionError(v)
 
     def to_bigint(self, v):
         v = self.to_primitive(v)
-        if v is None:
+        if v is None or v is NULL:
             raise JSErr("TypeError")
         if v is True:
             return 1
@@ -627,7 +635,14 @@ class World:
             vlen = self.to_index(len_v)
             if offset + vlen > n:
                 raise JSErr("RangeError")
-        # (re-checks after OrdinaryCreateFromConstructor cannot fire: no user code runs in between here)
+        # steps 11-14: re-check after the coercion of byteLength (user code) and OrdinaryCreateFromConstructor
+        if buf.detached:
+            raise JSErr("TypeError")
+        n = len(buf.data)
+        if offset > n:
+            raise JSErr("RangeError")
+        if len_v is not None and offset + vlen > n:
+            raise JSErr("RangeError")
         return DV(buf, offset, vlen)
 
     # ---- element access ------------------------------------------------------------------------------------------
@@ -727,6 +742,10 @@ class World:
         return self.new_ta_on_buffer(ta.t, ta.buf, float(begin), float(new_len))
 
     def ta_copy_within(self, ta, target, start, end=None):
+        """ES2024+ text: after the coercions `len` is re-read and the copy proceeds "with the longest still-applicable
+        prefix" (count = min(count, len - startIndex, len - targetIndex)).  The earlier resizable-buffer draft (quoted in
+        boa's comments) stopped at the first out-of-range byte instead, which copies nothing in the backward direction;
+        V8 and boa both implement the prefix rule."""
         length = self.validate(ta)
         to = self.rel_index(target, length)
         frm = self.rel_index(start, length)
@@ -736,26 +755,14 @@ class World:
             if ta.oob():
                 raise JSErr("TypeError")
             length = ta.len()
-            size = ta.size
-            limit = length * size + ta.off
-            tb = to * size + ta.off
-            fb = frm * size + ta.off
-            nb = count * size
-            if fb < tb < fb + nb:
-                direction = -1
-                fb += nb - 1
-                tb += nb - 1
-            else:
-                direction = 1
-            data = ta.buf.data
-            while nb > 0:
-                if fb < limit and tb < limit:
-                    data[tb] = data[fb]
-                    fb += direction
-                    tb += direction
-                    nb -= 1
-                else:
-                    nb = 0
+            count = min(count, length - frm, length - to)
+            if count > 0:
+                size = ta.size
+                tb = to * size + ta.off
+                fb = frm * size + ta.off
+                nb = count * size
+                data = ta.buf.data
+                data[tb:tb + nb] = bytes(data[fb:fb + nb])      # memmove semantics
         return ta
 
     def ta_slice(self, ta, start=None, end=None):
@@ -773,6 +780,93 @@ class World:
             nb = count * ta.size
             out.buf.data[0:nb] = ta.buf.data[sp:sp + nb]
         return out
+
+    def ta_slice_species(self, ta, start, end, mode):
+        """a.slice(start, end) where a.constructor[Symbol.species] returns a view ON THE SAME BUFFER:
+        mode 'fwd'  -> new T(b, a.byteOffset + size, n)   (target one element after the source: forward smear)
+        mode 'back' -> new T(b, a.byteOffset, n)
+        mode 'partner:<P>' -> new P(b, 0, n)               (different element type: Get/Set loop)"""
+        length = self.validate(ta)
+        s = self.rel_index(start, length)
+        e = self.rel_index(end, length, undefined_is=length)
+        count = max(e - s, 0)
+        # TypedArraySpeciesCreate -> species function -> constructor
+        base = ta.byte_offset_getter()
+        if mode == "fwd":
+            out = self.new_ta_on_buffer(ta.t, ta.buf, float(base + ta.size), float(count))
+        elif mode == "back":
+            out = self.new_ta_on_buffer(ta.t, ta.buf, float(base), float(count))
+        else:
+            out = self.new_ta_on_buffer(mode.split(":")[1], ta.buf, 0.0, float(count))
+        # TypedArrayCreateFromConstructor: ValidateTypedArray(new), length >= count
+        if out.oob():
+            raise JSErr("TypeError")
+        if out.len() < count:
+            raise JSErr("TypeError")
+        if is_big(out.t) != is_big(ta.t):
+            raise JSErr("TypeError")
+        if count > 0:
+            if ta.oob():
+                raise JSErr("TypeError")
+            e = min(e, ta.len())
+            count = max(e - s, 0)
+            if out.t == ta.t:
+                data = ta.buf.data
+                sp = s * ta.size + ta.off
+                tp = out.off
+                endp = tp + count * ta.size
+                while tp < endp:                      # the spec copies byte by byte, ascending (NOT memmove)
+                    data[tp] = data[sp]
+                    sp += 1
+                    tp += 1
+            else:
+                n = 0
+                k = s
+                while k < e:
+                    self.ta_set_element(out, n, ta.get(k))
+                    k += 1
+                    n += 1
+        return out
+
+    def ta_filter(self, ta, fx_at0):
+        """a.filter(function(v,i){ if (i===0) EFFECT; return true })"""
+        length = self.validate(ta)
+        kept = []
+        for k in range(length):
+            v = ta.get(k)
+            if k == 0 and fx_at0:
+                self.effect(fx_at0)
+            kept.append(v)
+        out = TA(Buf(len(kept) * ta.size), ta.t, 0, len(kept))
+        for n, v in enumerate(kept):
+            self.ta_set_element(out, n, v)
+        return out
+
+    def ta_find_last_index_undefined(self, ta, fx_first):
+        """a.findLastIndex(function(v){ <EFFECT on first call>; return v === undefined })"""
+        length = self.validate(ta)
+        first = True
+        k = length - 1
+        while k >= 0:
+            v = ta.get(k)
+            if first:
+                first = False
+                if fx_first:
+                    self.effect(fx_first)
+            if v is None:
+                return float(k)
+            k -= 1
+        return -1.0
+
+    def array_fill(self, ta, value, start=None, end=None):
+        """Array.prototype.fill.call(a, value, start, end): generic algorithm; the value is converted by every Set"""
+        length = ta.length_getter()                   # LengthOfArrayLike(O) = Get(O, "length")
+        k = self.rel_index(start, length)
+        e = self.rel_index(end, length, undefined_is=length)
+        while k < e:
+            self.ta_set_element(ta, k, value)
+            k += 1
+        return ta
 
     @staticmethod
     def _default_cmp_key(t):
@@ -920,9 +1014,7 @@ class World:
         length = self.validate(ta)
         parts = []
         for k in range(length):
-            v = ta.get(k)
-            parts.append("" if v is None else (str(v) if isinstance(v, int) else
-                                                 ("0" if v == 0 else js_num_str(v))))
+            parts.append(_elem_str(ta.get(k)))
         return ",".join(parts)
 
     def ta_iter(self, ta):
@@ -1089,12 +1181,21 @@ class World:
 # rendering identical to the JS helper `S` (see c15.py HELPERS)
 # ----------------------------------------------------------------------------------------------------------------
 def hexbytes(data):
-    return "<" + bytes(data).hex() + ">"
+    return "<" + " ".join(str(x) for x in bytes(data)) + ">"
+
+
+def _elem_str(v):
+    """ToString of a typed-array element as %TypedArray%.prototype.join does it"""
+    if v is None:
+        return ""
+    if isinstance(v, int):
+        return str(v)
+    return "0" if v == 0 else js_num_str(v)
 
 
 def render_ta(ta):
     n = ta.length_getter()
-    els = ",".join(show(ta.get(i)) for i in range(n))
+    els = ",".join(_elem_str(ta.get(i)) for i in range(n))
     return "%s(%d@%d/%d)[%s]" % (ta.t, n, ta.byte_offset_getter(), ta.byte_length_getter(), els)
 
 
